@@ -398,6 +398,9 @@ def ev(n, env, funcs=None):
                 return cc[n.attr]
             if n.attr in v.methods:
                 return _BoundMethod(v, n.attr)
+            if getattr(v, 'constructed', False) and '__getattr__' not in v.methods and an not in getattr(v, 'classnames', ()) \
+                    and n.attr not in getattr(v, 'classnames', ()):
+                raise AttributeError('%r object has no attribute %r' % (v.clsname, n.attr))
             raise Unsupported('record has no field %s' % an)
         if isinstance(v, PyStub):
             if hasattr(v, n.attr):
